@@ -126,10 +126,18 @@ class HeapRewriter:
                 for i in range(e.num_patterns()):
                     terms = [z3.substitute_vars(self.rw(c), *reversed(vs)) for c in e.pattern(i).children()]
                     pats.append(z3.MultiPattern(*terms) if len(terms) > 1 else terms[0])
-                if e.is_forall():
-                    r = z3.ForAll(vs, inst, patterns=pats) if pats else z3.ForAll(vs, inst)
-                elif e.is_exists():
-                    r = z3.Exists(vs, inst, patterns=pats) if pats else z3.Exists(vs, inst)
+                try:
+                    if e.is_forall():
+                        r = z3.ForAll(vs, inst, patterns=pats) if pats else z3.ForAll(vs, inst)
+                    elif e.is_exists():
+                        r = z3.Exists(vs, inst, patterns=pats) if pats else z3.Exists(vs, inst)
+                    else:
+                        r = None
+                except z3.Z3Exception:
+                    # a rewritten pattern term is no longer a valid pattern (e.g. a read through a family lambda): let the solver choose
+                    r = z3.ForAll(vs, inst) if e.is_forall() else z3.Exists(vs, inst) if e.is_exists() else None
+                if r is not None:
+                    pass
                 else:
                     r = z3.Lambda(vs, inst)
         elif z3.is_app(e):
@@ -147,6 +155,15 @@ class HeapRewriter:
                 while True:
                     while z3.is_store(arr) and self.distinct(arr.arg(1), idx):
                         arr = arr.arg(0)
+                    # family lambda  (lambda x. if SkFam(x) == n then INIT else BASE[x])  read at an entry-allocated reference:
+                    # entry objects belong to no family (axiom), so the read goes to BASE
+                    if z3.is_quantifier(arr) and arr.is_lambda() and arr.num_vars() == 1 and idx.sort() == smt.V and self.entry(idx):
+                        b = arr.body()
+                        if z3.is_app_of(b, z3.Z3_OP_ITE) and z3.is_eq(b.arg(0)) and _is_app(b.arg(0).arg(0), "SkFam") and z3.is_int_value(b.arg(0).arg(1)) and b.arg(0).arg(1).as_long() != 0:
+                            r2 = self.rw(z3.substitute_vars(b.arg(2), idx))
+                            self.cache[k] = r2
+                            self.keep.append(e)
+                            return r2
                     # a heap array created by a loop cut with frame "non-entry": entry-allocated references read as before
                     if z3.is_const(arr) and arr.decl().name() in smt.FRAME_OF and idx.sort() == smt.V and self.entry(idx):
                         arr = self.rw(smt.FRAME_OF[arr.decl().name()])
